@@ -482,7 +482,76 @@ func TestC13(t *testing.T) {
 	}
 
 	// ---- 6. Response.MarshalJSON / SetID through a bridge-like proxy path is covered by 5; direct:
-	// (responses are only constructible through a client; use a local pair)
+	// (responses are only constructible through a client; use a local pair). A proxy logs a response,
+	// relabels it and forwards it, possibly more than once: every encoding must carry the id that
+	// was set last, and the same result / error as the first.
+	{
+		peer, cch := rawPair()
+		pcli := jrpc2.NewClient(cch, nil)
+		go func() {
+			for {
+				b, err := peer.Recv()
+				if err != nil {
+					return
+				}
+				var q struct {
+					ID     json.RawMessage
+					Method string
+				}
+				json.Unmarshal(b, &q)
+				if q.Method == "fail" {
+					peer.Send([]byte(`{"jsonrpc":"2.0","id":` + string(q.ID) + `,"error":{"code":7,"message":"seven","data":{"k":[1,2]}}}`))
+				} else {
+					peer.Send([]byte(`{"jsonrpc":"2.0","id":` + string(q.ID) + `,"result":{"v":"` + q.Method + `"}}`))
+				}
+			}
+		}()
+		type view struct {
+			V      string          `json:"jsonrpc"`
+			ID     json.RawMessage `json:"id"`
+			Result json.RawMessage `json:"result"`
+			Error  json.RawMessage `json:"error"`
+		}
+		for _, m := range []string{"ok", "fail"} {
+			rsp, _ := pcli.Call(ctx, m, nil)
+			if rsp == nil { // a failed call reports its response through the error only: go through a batch
+				rs, err := pcli.Batch(ctx, []jrpc2.Spec{{Method: m}})
+				if err != nil || len(rs) != 1 {
+					res.Violatef("Batch against a scripted peer failed", m, "%v", err)
+					continue
+				}
+				rsp = rs[0]
+			}
+			var first view
+			for step, id := range []string{"", `"caller-7"`, `4096`, `"x\"y"`, `-1.5e3`} {
+				if id != "" {
+					rsp.SetID(id)
+				}
+				b, err := json.Marshal(rsp)
+				in := map[string]any{"response_of": m, "marshal_after_SetID": id, "step": step}
+				res.Case(fmt.Sprintf("response-marshal/%s/%d", m, step), true, in)
+				res.Evaluations++
+				var v view
+				if err != nil || json.Unmarshal(b, &v) != nil || v.V != "2.0" {
+					res.Violatef("Response.MarshalJSON did not produce a JSON-RPC response", in, "%q %v", b, err)
+					continue
+				}
+				if step == 0 {
+					first = v
+					continue
+				}
+				if string(v.ID) != id || rsp.ID() != id {
+					res.Violatef("a relabelled response is not encoded with the id that was set", in, "SetID(%s), ID() = %s, encoded %s", id, rsp.ID(), b)
+				}
+				same := func(a, b json.RawMessage) bool { return len(a) == 0 && len(b) == 0 || jsonEqual(a, b) }
+				if !same(v.Result, first.Result) || !same(v.Error, first.Error) {
+					res.Violatef("relabelling a response changed its result or error", in, "first %s / %s, now %s", first.Result, first.Error, b)
+				}
+			}
+		}
+		peer.Close()
+		pcli.Close()
+	}
 	// ---- model comparison of the encoder
 	model := runOracle(t, lines)
 	for i := range model {
